@@ -31,6 +31,9 @@ func init() {
 		Assumptions: []string{"the shared value library (starlark.Binary/Unary/Compare/Iterate, built-in functions and methods) is outside this comparison: both sides call it", "cases in which either side exhausts its step/fuel budget are discarded and counted"},
 		Run:         run,
 		MinDistinct: 300,
+		// a generated program may double a list in a loop: bound the address space so that such a
+		// case ends as an (excluded, counted) out-of-memory death of the child instead of exhausting the machine
+		Variants: func(string) []driver.Variant { return []driver.Variant{{Name: "default", VLimitKB: 7 << 20}} },
 	})
 }
 
